@@ -415,7 +415,7 @@ OBLIGATIONS = {
 def _family(tier: str, seed: int) -> List[Any]:
     if tier == "quick":
         return skeletons.gen(4, 3, limit=24, seed=seed)
-    return skeletons.gen(5, 3, limit=120, seed=seed)
+    return skeletons.gen(5, 3, limit=60, seed=seed)
 
 
 def _alphabet(spec: Any) -> str:
@@ -457,30 +457,30 @@ def items(tier: str, seed: int) -> List[Dict[str, Any]]:
     for sid, spec in fam:
         out.append({"ob": "step_node", "params": {"sid": sid, "spec": spec}, "timeout": 150 if quick else 300,
                     "label": f"step_node[{sid}]"})
-    abort_skels = ("CUR2", "CUR4", "CUR10") if quick else ("CUR2", "CUR3", "CUR4", "CUR5", "CUR7", "CUR10", "CUR15", "CUR16")
+    abort_skels = ("CUR2", "CUR4", "CUR10") if quick else ("CUR2", "CUR4", "CUR5", "CUR10", "CUR16")
     for sid, spec in [(k, v) for k, v in cur if k in abort_skels]:
         n = _count_nodes(spec)
         for t in range(n):
             for wh in (0, 1):
                 out.append({"ob": "step_abort", "params": {"sid": sid, "spec": spec, "tgts": [t, t + 1], "where": wh},
                             "timeout": 300 if quick else 900, "label": f"step_abort[{sid},tgt={t},{'entry' if wh == 0 else 'exit'}]"})
-    str_skels = ["CUR2", "CUR4", "CUR8", "CUR9"] if quick else list(skeletons.CURATED)
+    str_skels = ["CUR2", "CUR4", "CUR8", "CUR9"] if quick else ["CUR2", "CUR4", "CUR8", "CUR9", "CUR15", "CUR5"]
     for sid in str_skels:
         spec = skeletons.CURATED[sid]
         n = _count_nodes(spec)
-        srcs = _spread(n) if quick or sid not in ("CUR2", "CUR8", "CUR9", "CUR15") else range(n)
+        srcs = _spread(n)
         for s in srcs:
             # '#alpha' / '#beta' custom ids of CUR8 need 5-6 characters
             L = (5 if sid == "CUR8" else 4) if quick else (6 if sid == "CUR8" else 5)
             if s == 0 and not quick:
                 L -= 1  # the root as source resolves the most spellings
             out.append({"ob": "step_string", "params": {"sid": sid, "spec": spec, "maxlen": L, "src": s},
-                        "timeout": 240 if quick else 900, "path_timeout": 30, "label": f"step_string[{sid},src={s},L={L}]"})
+                        "timeout": 240 if quick else 700, "path_timeout": 30, "label": f"step_string[{sid},src={s},L={L}]"})
     for sid in ([] if quick else ["CUR1", "CUR2", "CUR8", "CUR9"]):
         spec = skeletons.CURATED[sid]
         out.append({"ob": "step_unres", "params": {"sid": sid, "spec": spec, "maxlen": 2 if quick else 3, "alphabet": _alphabet(spec)},
                     "timeout": 240 if quick else 900, "label": f"step_unres[{sid}]"})
-    for sid, spec in cur + fam[: (10 if quick else 100)]:
+    for sid, spec in cur + fam[: (10 if quick else 40)]:
         out.append({"ob": "snapshot_legal", "params": {"sid": sid, "spec": spec}, "timeout": 60, "label": f"snapshot_legal[{sid}]"})
     return out
 
